@@ -17,6 +17,8 @@ type PropFunc struct {
 	Func string `json:"func"`
 	// Stretch functions are only checked in the thorough tier and never fail the run
 	Stretch bool `json:"stretch,omitempty"`
+	// Closure > 0: verify the k-th function literal of the function against its closure[k] contract
+	Closure int `json:"closure,omitempty"`
 }
 
 type PropConfig struct {
@@ -115,7 +117,7 @@ func runProperty(id, repo, verif string, thorough bool, only string, dump bool) 
 		if f.Stretch && !thorough {
 			continue
 		}
-		fr, fo := verifyFunc(reg, f.Pkg, f.Func)
+		fr, fo := verifyFunc(reg, f.Pkg, f.Func, f.Closure)
 		rep.Funcs = append(rep.Funcs, fr)
 		if fr.Error != "" {
 			rep.detached = append(rep.detached, fr)
